@@ -2072,3 +2072,265 @@ Proof.
         apply Hkeep; unfold allnodes; apply in_or_app; [left|right; apply in_or_app; left]; exact Hx. }
     rewrite !abs_upd in Habs. exact Habs.
 Qed.
+
+(* ================================================================== one operation refines the deque *)
+Lemma clear_trace_core w : same_core w (clear_trace w).
+Proof. unfold same_core. auto. Qed.
+
+Definition not_sched (o : qop) : Prop := match o with QSched _ => False | _ => True end.
+
+Lemma length_pairs w l : length (pairs w l) = length l.
+Proof. apply map_length. Qed.
+
+Theorem step_refines w0 X o :
+  QInv w0 X -> dq_pre o (abs w0 X) ->
+  exists w' r X', q_step w0 o = Ok (w', r) /\ QInv w' X' /\
+    dq_step o (abs w0 X) r (failed w') (abs w' X') /\
+    (not_sched o -> no_fault w0 -> no_fault w' /\ failed w' = false).
+Proof.
+  intros I0 Hpre. unfold q_step. set (w := clear_trace w0).
+  assert (I : QInv w X) by (eapply same_core_QInv; [apply clear_trace_core|exact I0]).
+  assert (HA : abs w0 X = abs w X) by (symmetry; apply same_core_abs, clear_trace_core).
+  rewrite HA in *.
+  assert (Hnf : forall w', trace_ok w w' -> no_fault w0 -> no_fault w' /\ failed w' = false).
+  { intros w' T H. destruct (T H) as [H1 H2]. split; [exact H1|]. rewrite H2. reflexivity. }
+  destruct o.
+  - (* sched *) exists (set_sched w l), 0%Z, X. split; [reflexivity|].
+    assert (C : same_core w (set_sched w l)) by (unfold same_core; auto).
+    split; [eapply same_core_QInv; eauto|]. split; [|intros []].
+    cbn [dq_step]. split; [reflexivity|apply same_core_abs; exact C].
+  - (* reset *) destruct (reset_ok w X s size I) as (w' & E & T & I' & A'). rewrite E.
+    exists w', 0%Z, (upd s [] X). split; [reflexivity|]. split; [exact I'|]. split; [|intros _; apply Hnf; exact T].
+    cbn [dq_step]. auto.
+  - (* push_fore *) destruct (push_ok true w X s v I) as (w' & n & E & T & C). rewrite E.
+    cbn [ptr_res fst snd]. destruct C as [(Hn & I' & A' & F)|(Hn & Nn & I' & A')].
+    + subst n. exists w', 0%Z, X. split; [reflexivity|]. split; [exact I'|]. split; [|intros _; apply Hnf; exact T].
+      cbn [dq_step]. left. auto.
+    + eexists w', (Z.of_N n), _. split; [reflexivity|]. split; [exact I'|]. split; [|intros _; apply Hnf; exact T].
+      cbn [dq_step]. right. exists n. auto.
+  - (* push_back *) destruct (push_ok false w X s v I) as (w' & n & E & T & C). rewrite E.
+    cbn [ptr_res fst snd]. destruct C as [(Hn & I' & A' & F)|(Hn & Nn & I' & A')].
+    + subst n. exists w', 0%Z, X. split; [reflexivity|]. split; [exact I'|]. split; [|intros _; apply Hnf; exact T].
+      cbn [dq_step]. left. auto.
+    + eexists w', (Z.of_N n), _. split; [reflexivity|]. split; [exact I'|]. split; [|intros _; apply Hnf; exact T].
+      cbn [dq_step]. right. exists n. auto.
+  - (* pull_fore *) destruct (pull_ok true w X s I) as (w' & r & E & T & C). rewrite E. cbn [ptr_res fst snd].
+    cbn [dq_step]. rewrite sel_abs. destruct (sel s X) as [|n t] eqn:Hsel; cbn [pairs map].
+    + destruct C as [-> ->]. exists w, 0%Z, X. split; [reflexivity|]. split; [exact I|].
+      split; [auto|intros _; apply Hnf; exact T].
+    + destruct C as [(Hr & I' & A' & F)|(Hr & I' & A')]; subst r.
+      * exists w', 0%Z, X. split; [reflexivity|]. split; [exact I'|]. split; [left; auto|intros _; apply Hnf; exact T].
+      * eexists w', _, _. split; [reflexivity|]. split; [exact I'|]. split; [right; split; [reflexivity|exact A']|].
+        intros _; apply Hnf; exact T.
+  - (* pull_back *) destruct (pull_ok false w X s I) as (w' & r & E & T & C). rewrite E. cbn [ptr_res fst snd].
+    cbn [dq_step]. rewrite sel_abs, pairs_rev. destruct (rev (sel s X)) as [|n t] eqn:Hsel; cbn [pairs map].
+    + destruct C as [-> ->]. exists w, 0%Z, X. split; [reflexivity|]. split; [exact I|].
+      split; [auto|intros _; apply Hnf; exact T].
+    + destruct C as [(Hr & I' & A' & F)|(Hr & I' & A')]; subst r.
+      * exists w', 0%Z, X. split; [reflexivity|]. split; [exact I'|]. split; [left; auto|intros _; apply Hnf; exact T].
+      * eexists w', _, _. split; [reflexivity|]. split; [exact I'|]. split; [|intros _; apply Hnf; exact T].
+        right. split; [reflexivity|]. fold (pairs w t). rewrite pairs_rev. exact A'.
+  - (* insert *) destruct (insert_ok w X s idx v I) as (w' & n & E & T & C). rewrite E.
+    cbn [ptr_res fst snd]. destruct C as [(Hn & I' & A' & F)|(Hn & Nn & I' & A')].
+    + subst n. exists w', 0%Z, X. split; [reflexivity|]. split; [exact I'|]. split; [|intros _; apply Hnf; exact T].
+      cbn [dq_step]. left. auto.
+    + eexists w', (Z.of_N n), _. split; [reflexivity|]. split; [exact I'|]. split; [|intros _; apply Hnf; exact T].
+      cbn [dq_step]. right. exists n. auto.
+  - (* remove *) destruct (remove_ok w X s idx I) as (w' & r & E & T & C). rewrite E. cbn [ptr_res fst snd].
+    cbn [dq_step]. rewrite sel_abs, length_pairs, map_fst_pairs.
+    destruct (N.ltb idx (N.of_nat (length (sel s X)))).
+    + destruct C as [(Hr & I' & A' & F)|(Hr & I' & A')]; subst r.
+      * exists w', 0%Z, X. split; [reflexivity|]. split; [exact I'|]. split; [left; auto|intros _; apply Hnf; exact T].
+      * eexists w', _, _. split; [reflexivity|]. split; [exact I'|]. split; [|intros _; apply Hnf; exact T].
+        right. split; [reflexivity|]. rewrite <- sel_abs. exact A'.
+    + rewrite pairs_rev. destruct (rev (sel s X)) as [|n t] eqn:Hsel; cbn [pairs map].
+      * destruct C as [-> ->]. exists w, 0%Z, X. split; [reflexivity|]. split; [exact I|].
+        split; [auto|intros _; apply Hnf; exact T].
+      * destruct C as [(Hr & I' & A' & F)|(Hr & I' & A')]; subst r.
+        -- exists w', 0%Z, X. split; [reflexivity|]. split; [exact I'|]. split; [left; auto|intros _; apply Hnf; exact T].
+        -- eexists w', _, _. split; [reflexivity|]. split; [exact I'|]. split; [|intros _; apply Hnf; exact T].
+           right. split; [reflexivity|]. fold (pairs w t). rewrite pairs_rev. exact A'.
+  - (* at *) rewrite (at_ok w X s idx I). cbn [look_res]. eexists w, _, X. split; [reflexivity|]. split; [exact I|].
+    split; [cbn [dq_step]; auto|intros _; apply Hnf; apply trace_ok_refl].
+  - (* fore *) rewrite (fore_ok w X s I). cbn [look_res]. eexists w, _, X. split; [reflexivity|]. split; [exact I|].
+    split; [cbn [dq_step]; auto|intros _; apply Hnf; apply trace_ok_refl].
+  - (* back *) rewrite (back_ok w X s I). cbn [look_res]. eexists w, _, X. split; [reflexivity|]. split; [exact I|].
+    split; [cbn [dq_step]; auto|intros _; apply Hnf; apply trace_ok_refl].
+  - (* sort_fore *) destruct (sort_fore_ok (cmpf asc) w X s I) as (w' & xs' & E & T & I' & A'). rewrite E.
+    cbn [unit_res]. exists w', 0%Z, (upd s xs' X). split; [reflexivity|]. split; [exact I'|].
+    split; [cbn [dq_step]; auto|intros _; apply Hnf; exact T].
+  - (* sort_back *) destruct (sort_back_ok (cmpf asc) w X s I) as (w' & xs' & E & T & I' & A'). rewrite E.
+    cbn [unit_res]. exists w', 0%Z, (upd s xs' X). split; [reflexivity|]. split; [exact I'|].
+    split; [cbn [dq_step]; auto|intros _; apply Hnf; exact T].
+  - (* push_sort *) destruct (push_sort_ok (cmpf asc) w X s key I) as (w' & n & E & T & C). rewrite E.
+    cbn [ptr_res fst snd]. destruct C as [(Hn & I' & A' & F)|(Hn & Nn & xs' & I' & A')].
+    + subst n. exists w', 0%Z, X. split; [reflexivity|]. split; [exact I'|]. split; [|intros _; apply Hnf; exact T].
+      cbn [dq_step]. left. auto.
+    + exists w', (Z.of_N n), (upd s xs' X). split; [reflexivity|]. split; [exact I'|]. split; [|intros _; apply Hnf; exact T].
+      cbn [dq_step]. right. exists n. auto.
+  - (* swap_e *) cbn [dq_pre] in Hpre. rewrite addrs_abs in Hpre. destruct Hpre as [Hl Hr].
+    destruct (swap_elem_ok w X l r I Hl Hr) as (w' & E & T & I' & A'). rewrite E. cbn [unit_res].
+    eexists w', 0%Z, _. split; [reflexivity|]. split; [exact I'|]. split; [|intros _; apply Hnf; exact T].
+    cbn [dq_step]. split; [reflexivity|]. exists (l, val w l), (r, val w r).
+    assert (Hin : forall x, In x (fst X ++ snd X) -> In (x, val w x) (fst (abs w X) ++ snd (abs w X))).
+    { intros x Hx. unfold abs. cbn [fst snd]. rewrite <- pairs_app. unfold pairs. apply (in_map (fun y => (y, val w y))). exact Hx. }
+    split; [apply Hin; exact Hl|]. split; [apply Hin; exact Hr|]. split; [reflexivity|]. split; [reflexivity|exact A'].
+  - (* swap *) destruct (swap_ok w X s1 s2 I) as (w' & E & T & I' & A'). rewrite E. cbn [unit_res].
+    eexists w', 0%Z, _. split; [reflexivity|]. split; [exact I'|]. split; [|intros _; apply Hnf; exact T].
+    cbn [dq_step]. split; [reflexivity|exact A'].
+  - (* drop *) destruct (drop_ok w X s I) as (w' & rc & k & E & T & I' & A' & C). rewrite E.
+    eexists w', rc, _. split; [reflexivity|]. split; [exact I'|]. split; [|intros _; apply Hnf; exact T].
+    cbn [dq_step]. destruct C as [(Hrc & Hnil)|(Hrc & F)].
+    + left. split; [exact Hrc|]. rewrite A'. rewrite sel_abs, skipn_pairs, Hnil. reflexivity.
+    + right. split; [exact Hrc|]. split; [exact F|]. exists k. exact A'.
+  - (* setz *) destruct (setz_ok w X s siz I) as (w' & rc & k & E & T & I' & A' & C). rewrite E.
+    eexists w', rc, _. split; [reflexivity|]. split; [exact I'|]. split; [|intros _; apply Hnf; exact T].
+    cbn [dq_step]. destruct C as [(Hrc & Hnil)|(Hrc & F)].
+    + left. split; [exact Hrc|]. rewrite A'. rewrite sel_abs, skipn_pairs, Hnil. reflexivity.
+    + right. split; [exact Hrc|]. split; [exact F|]. exists k. exact A'.
+Qed.
+
+(* ================================================================== histories *)
+(* the abstract machine run on a whole history; the concrete results r and the "an allocation was
+   refused" flags f are existentially threaded *)
+Inductive dq_run : list qop -> astate -> list Z -> astate -> Prop :=
+| dq_nil A : dq_run [] A [] A
+| dq_cons o os A r f A1 rs A2 :
+    dq_pre o A -> dq_step o A r f A1 -> dq_run os A1 rs A2 -> dq_run (o :: os) A (r :: rs) A2.
+
+(* the addresses currently enqueued, read off the heap by walking both rings *)
+Definition enq (w : qworld) : list id :=
+  match ring_of (w_h w) 1 (fuel_of w), ring_of (w_h w) 2 (fuel_of w) with
+  | Some a, Some b => a ++ b
+  | _, _ => []
+  end.
+
+Definition op_pre (w : qworld) (o : qop) : Prop :=
+  match o with QSwapElem l r => In l (enq w) /\ In r (enq w) | _ => True end.
+
+(* every element swap of the history is applied to two enqueued elements *)
+Fixpoint hist_pre (w : qworld) (os : list qop) : Prop :=
+  match os with
+  | [] => True
+  | o :: r => op_pre w o /\ match q_step w o with Ok (w1, _) => hist_pre w1 r | _ => True end
+  end.
+
+Lemma enq_spec w X : QInv w X -> enq w = fst X ++ snd X.
+Proof.
+  intros I. unfold enq. pose proof (ring_of_spec w X false I) as Ha. pose proof (ring_of_spec w X true I) as Hb.
+  cbn [qaddr] in Ha, Hb. rewrite Ha, Hb. reflexivity.
+Qed.
+
+Lemma op_pre_dq w X o : QInv w X -> op_pre w o -> dq_pre o (abs w X).
+Proof.
+  intros I. destruct o; cbn [op_pre dq_pre]; auto. rewrite addrs_abs, (enq_spec w X I). auto.
+Qed.
+
+Theorem run_refines os : forall w X,
+  QInv w X -> hist_pre w os ->
+  exists w' rs X', q_run w os = Ok (w', rs) /\ QInv w' X' /\ dq_run os (abs w X) rs (abs w' X').
+Proof.
+  induction os as [|o os IH]; intros w X I Hp.
+  - exists w, [], X. split; [reflexivity|]. split; [exact I|constructor].
+  - cbn [hist_pre] in Hp. destruct Hp as [Hpo Hpr].
+    pose proof (op_pre_dq w X o I Hpo) as Hdq.
+    destruct (step_refines w X o I Hdq) as (w1 & r & X1 & E & I1 & S & _).
+    rewrite E in Hpr. destruct (IH w1 X1 I1 Hpr) as (w2 & rs & X2 & E2 & I2 & Rn).
+    exists w2, (r :: rs), X2. cbn [q_run]. rewrite E. cbn [fst snd]. rewrite E2. cbn [fst snd].
+    split; [reflexivity|]. split; [exact I2|]. econstructor; eauto.
+Qed.
+
+(* without allocation faults nothing ever fails *)
+Theorem run_no_fault os : forall w X,
+  QInv w X -> hist_pre w os -> no_fault w -> Forall not_sched os ->
+  exists w' rs X', q_run w os = Ok (w', rs) /\ QInv w' X' /\ no_fault w' /\
+    (os <> [] -> failed w' = false).
+Proof.
+  induction os as [|o os IH]; intros w X I Hp Hnf Hns.
+  - exists w, [], X. split; [reflexivity|]. split; [exact I|]. split; [exact Hnf|congruence].
+  - cbn [hist_pre] in Hp. destruct Hp as [Hpo Hpr]. inversion Hns as [|? ? Ho Hos]; subst.
+    pose proof (op_pre_dq w X o I Hpo) as Hdq.
+    destruct (step_refines w X o I Hdq) as (w1 & r & X1 & E & I1 & S & NF).
+    destruct (NF Ho Hnf) as [Hnf1 Hf1].
+    rewrite E in Hpr. destruct (IH w1 X1 I1 Hpr Hnf1 Hos) as (w2 & rs & X2 & E2 & I2 & Hnf2 & Hf2).
+    exists w2, (r :: rs), X2. cbn [q_run]. rewrite E. cbn [fst snd]. rewrite E2. cbn [fst snd].
+    split; [reflexivity|]. split; [exact I2|]. split; [exact Hnf2|]. intros _.
+    destruct os as [|o' os']; [|apply Hf2; discriminate].
+    cbn in E2. inversion E2; subst. exact Hf1.
+Qed.
+
+(* the two freshly constructed queues *)
+Lemma world0_inv : QInv q_world0 ([], []).
+Proof.
+  assert (L1 : live (w_h q_world0) 1) by (exists (mkD 1 1); reflexivity).
+  assert (L2 : live (w_h q_world0) 2) by (exists (mkD 2 2); reflexivity).
+  constructor.
+  - intros [|]; cbn [sel fst snd qaddr]; apply Ring_single; auto; split; reflexivity.
+  - constructor.
+  - intros x [].
+  - intros [|]; reflexivity.
+  - intros [|]; cbn; lia.
+  - cbn. lia.
+Qed.
+
+(* what the invariant says in plain words *)
+Theorem inv_facts w X :
+  QInv w X ->
+  (forall s, ring_of (w_h w) (qaddr s) (fuel_of w) = Some (sel s X)) /\
+  (forall s, ring_of_back (w_h w) (qaddr s) (fuel_of w) = Some (rev (sel s X))) /\
+  (forall s, q_num (getq w s) = N.of_nat (length (sel s X))) /\
+  NoDup (fst X ++ snd X ++ pools w) /\
+  (forall s x, In x (q_pool (getq w s)) -> ~ In x (fst X ++ snd X)).
+Proof.
+  intros I. split; [intros s; apply ring_of_spec; exact I|]. split; [intros s; apply ring_of_back_spec; exact I|].
+  split; [apply (qi_num _ _ I)|]. split; [apply (qi_nodup _ _ I)|].
+  intros s x Hx Hin. pose proof (qi_nodup _ _ I) as N. unfold allnodes in N. rewrite app_assoc in N.
+  eapply NoDup_app_disj; eauto. unfold pools. destruct s; apply in_or_app; auto.
+Qed.
+
+(* ================================================================== the bodies as found are refuted *)
+Definition world3 : qworld :=
+  match q_run q_world0 [QPushBack false 1%Z; QPushBack false 2%Z; QPushBack false 3%Z] with
+  | Ok (w, _) => w | _ => q_world0 end.
+
+Lemma world3_inv : QInv world3 ([3; 4; 5], []).
+Proof.
+  destruct (run_refines [QPushBack false 1%Z; QPushBack false 2%Z; QPushBack false 3%Z] q_world0 ([], []) world0_inv)
+    as (w' & rs & X' & E & I' & _).
+  { cbn. auto. }
+  assert (Hw : w' = world3) by (unfold world3; rewrite E; reflexivity). subst w'.
+  pose proof (ring_of_spec _ _ false I') as Ha. pose proof (ring_of_spec _ _ true I') as Hb.
+  vm_compute in Ha. vm_compute in Hb. destruct X' as [xa xb]. cbn [sel] in Ha, Hb.
+  inversion Ha; inversion Hb; subst. exact I'.
+Qed.
+
+(* a_que_swap_ as found (a_list_swap_node) on two adjacent elements: the walk from the head never returns *)
+Theorem swap_elem_orig_refuted :
+  exists w X l r, QInv w X /\ In l (fst X) /\ In r (fst X) /\
+    exists w', q_swap_elem_orig w l r = Ok w' /\ ring_of (w_h w') 1 (fuel_of w') = None /\
+               forall X', ~ QInv w' X'.
+Proof.
+  exists world3, ([3; 4; 5], []), 3, 4. split; [exact world3_inv|]. split; [cbn; auto|]. split; [cbn; auto|].
+  destruct (q_swap_elem_orig world3 3 4) as [w'| |] eqn:E; try (vm_compute in E; discriminate).
+  exists w'. split; [reflexivity|].
+  assert (Hr : ring_of (w_h w') 1 (fuel_of w') = None).
+  { vm_compute in E. inversion E; subst. vm_compute. reflexivity. }
+  split; [exact Hr|]. intros X' I'. rewrite (ring_of_spec w' X' false I') in Hr. discriminate.
+Qed.
+
+(* a_que_swap as found (structure copy): the walk from A's head meets B's sentinel as if it were an element *)
+Theorem swap_orig_refuted :
+  exists w X, QInv w X /\
+    exists w', q_swap_orig w false true = Ok w' /\ ring_of (w_h w') 1 (fuel_of w') = Some [2] /\
+               forall X', ~ QInv w' X'.
+Proof.
+  exists q_world0, ([], []). split; [exact world0_inv|].
+  destruct (q_swap_orig q_world0 false true) as [w'| |] eqn:E; try (vm_compute in E; discriminate).
+  exists w'. split; [reflexivity|].
+  assert (Hr : ring_of (w_h w') 1 (fuel_of w') = Some [2]).
+  { vm_compute in E. inversion E; subst. vm_compute. reflexivity. }
+  split; [exact Hr|]. intros X' I'. rewrite (ring_of_spec w' X' false I') in Hr. cbn [qaddr] in Hr.
+  inversion Hr as [Hs]. assert (3 <= 2).
+  { eapply (QInv_node_ge3 w' X' 2 I'). eapply (allnodes_sel w' X' false). rewrite Hs. left. reflexivity. }
+  lia.
+Qed.
